@@ -37,6 +37,10 @@ func main() {
 		fmt.Println("usage: cvssmc <id> quick|thorough | cvssmc replay <file>; ids:", ids)
 		os.Exit(2)
 	}
+	if os.Args[1] == "fresh" {
+		freshMain(os.Args[2:])
+		return
+	}
 	if os.Args[1] == "hist-entry" {
 		histEntryMain(os.Args[2:])
 		return
